@@ -41,6 +41,7 @@ class S(vlib.Spec):
         "harness/cmd/c17 (drives dump.DumpIDL, parser.ParseString, semantic.Checker/ResolveSymbols in-process and the trimmer binary in thorough tier), harness/idlgen (program generator), harness/astdump + idlast (Go AST -> Coq term), harness/coqfmt, lib/vlib.py",
     ]
     assumptions = ["source bytes are valid UTF-8 (the Go parser works on runes; the models on bytes)",
+                   "C05's Idl/Resolve.v models semantic.ResolveSymbols (tied by the C05 check); semantic.Checker.CheckAll has no model and is only checked on the implementation (code 7)",
                    "generated programs use no keyword as a name"]
 
     def producer_args(self, ctx):
@@ -70,10 +71,10 @@ class S(vlib.Spec):
                 fh.write("From Coq Require Import NArith List.\nFrom Verif Require Import Corr.C17 Corr.C17Domain.\nRequire Import %s.\n"
                          "Definition D := Eval vm_compute in (domain_counts %s.cases).\nPrint D.\n" % (s, s))
             rc, out = vlib.sh(["coqc", "-Q", vlib.COQ, "Verif", os.path.basename(f)], cwd=ctx.out, timeout=900)
-            m = re.search(r"D = \((\d+)%N, (\d+)%N, (\d+)%N, (\d+)%N\)", " ".join(out.split()))
+            m = re.search(r"D = \((\d+)%N, (\d+)%N, (\d+)%N, (\d+)%N, (\d+)%N\)", " ".join(out.split()))
             return tuple(int(x) for x in m.groups()) if (rc == 0 and m) else None
 
-        tot = [0, 0, 0, 0]
+        tot = [0, 0, 0, 0, 0]
         failed = 0
         with concurrent.futures.ThreadPoolExecutor(max_workers=4) as ex:
             for r in ex.map(one, shards):
@@ -86,6 +87,7 @@ class S(vlib.Spec):
         st["cases_in_domain_of_dump_view_equal(view_ok)"] = tot[1]
         st["cases_in_domain_of_roundtrip(both)"] = tot[2]
         st["cases_in_domain_of_lex_dump(lex_ok)"] = tot[3]
+        st["cases_satisfying_parsed_ok(dump_passes_semantic)"] = tot[4]
         st["domain_cases_evaluated"] = "the cases of %d of %d shards" % (len(shards) - failed, len(ctx.meta.get("shards", [])))
         st["domain_shards_evaluated"] = len(shards) - failed
         st["domain_shards_not_evaluated"] = failed
